@@ -83,7 +83,8 @@ def contents(level, q):
 
 
 HOSTS = {
-    'base': ['{[#A;%s]}', '{[#B][#A;%s]1[#B][#B]1}', '{[#A;%s]|%d[#B]}.{#A=[$]CC[$],#B=[$]O}'],
+    'base': ['{[#A;%s]}', '{[#B][#A;%s]1[#B][#B]1}', '{[#A;%s]|%d[#B]}.{#A=[$]CC[$],#B=[$]O}',
+             '{[#B][#A;%s]([#B])|%d}.{#A=[$]C([$])C[$],#B=[$]O}'],
     'aa': ['{[#A]|%d}.{#A=[$]C[O;%s]C[$]}', '{[#A]|%d}.{#A=[$]C([H;%s])O[$]}', '{[#B][#A]|%d}.{#A=[$][O;%s][$],#B=[$]C}',
            '{[#A]|%d}.{#A=[>]C[CH;%s](F)[<]}'],
     'cg': ['{[#A]|%d}.{#A=[$][#X][#Y;%s][$]}', '{[#A]|%d}.{#A=[>][#Y;%s]1[#X][#Z]1[<]}'],
